@@ -843,10 +843,79 @@ def build_type(spec):
     return T.PrefixedArray(getattr(T, spec[1]), build_type(spec[2]))
 
 
+def _overlap_packets(ver):
+    from minecraft.networking.packets import Packet
+    from minecraft.networking import types as T
+    from minecraft.networking.packets import serverbound as sb
+    c = P4.fresh_ctx(ver)
+    G1 = type('G1Packet', (Packet,), {
+        'id': 0x10, 'packet_name': 'g1', 'definition': [
+            {'a': T.VarInt}, {'s': T.String},
+            {'arr': T.PrefixedArray(T.VarInt, T.String)}]})
+    G2 = type('G2Packet', (Packet,), {
+        'id': 0x22, 'packet_name': 'g2', 'definition': [
+            {'x': T.Double, 'b': T.VarIntPrefixedByteArray},
+            {'pos': T.Position}, {'t': T.TrailingByteArray}]})
+    out = [
+        G1(context=c, a=300, s='h\u00e9llo' * 20, arr=['a', 'bc', '']),
+        G2(context=c, x=-2.5, b=b'\x01' * 90, pos=T.Position(1, 2, 3),
+           t=b'tail'),
+        sb.play.ChatPacket(context=c, message='hello world ' * 8),
+        sb.play.KeepAlivePacket(context=c, keep_alive_id=2 ** 31 - 1),
+        sb.handshake.HandShakePacket(context=c, protocol_version=ver,
+                                     server_address='localhost',
+                                     server_port=25565, next_state=2),
+    ]
+    return out
+
+
+def overlap_case(ctx, case):
+    """Two packets being written at the same time on different sockets
+    (two connections, or a user thread and a networking thread of different
+    connections): writing A is suspended at its k-th line, B is written
+    completely, A resumes.  Both frames must equal what each produces
+    alone.  case {version, a, b, ta, tb, k} (indices into a fixed packet
+    list; ta/tb compression thresholds or None)."""
+    from vlib.budget import run_interleaved
+    ver = case['version']
+    ctx.ev()
+    pa = _overlap_packets(ver)[case['a']]
+    pb = _overlap_packets(ver)[case['b']]
+
+    def w(p, t):
+        s = Sink()
+        if t is None:
+            p.write(s)
+        else:
+            p.write(s, t)
+        return s.value
+    alone_a, alone_b = w(pa, case['ta']), w(pb, case['tb'])
+    sa, sb_ = Sink(), Sink()
+    try:
+        ra, rb, ran = run_interleaved(
+            lambda: pa.write(sa) if case['ta'] is None
+            else pa.write(sa, case['ta']),
+            lambda: pb.write(sb_) if case['tb'] is None
+            else pb.write(sb_, case['tb']), case['k'])
+    except Exception as e:
+        ctx.fail('overlap', 'F1-overlapping-writes-raise', case, exc=e)
+        return
+    if not ran:
+        ctx.label('overlap_point_beyond_call')
+        return
+    if sa.value != alone_a or sb_.value != alone_b:
+        ctx.fail('overlap', 'F1-overlapping-writes', case,
+                 (sa.value.hex()[:120], sb_.value.hex()[:120]),
+                 (alone_a.hex()[:120], alone_b.hex()[:120]))
+        return
+    ctx.label('overlap')
+
+
 defn_case = P4.reassigned(defn_case)
 hand_case = P4.reassigned(hand_case)
 program_case = P4.reassigned(program_case)
-COMPONENTS = {'defn': defn_case, 'hand': hand_case, 'program': program_case}
+COMPONENTS = {'defn': defn_case, 'hand': hand_case, 'program': program_case,
+              'overlap': overlap_case}
 
 
 # --------------------------------------------------------------------- tasks
@@ -982,10 +1051,25 @@ def t_programs(ctx, n):
     hyp(ctx, 'programs', strat, body, n)
 
 
+def t_overlap(ctx, a, step):
+    n = len(_overlap_packets(757))
+    for b in range(n):
+        for ta, tb in ((None, None), (0, 64), (64, None)):
+            for k in range(1, 2000, step):
+                before = ctx.labels.get('overlap_point_beyond_call', 0)
+                overlap_case(ctx, {'version': 757, 'a': a, 'b': b, 'ta': ta,
+                                   'tb': tb, 'k': k})
+                if ctx.labels.get('overlap_point_beyond_call', 0) > before:
+                    break
+    ctx.sample({'version': 757, 'a': a, 'b': 0, 'ta': 0, 'tb': 64, 'k': 7},
+               'overlap')
+
+
 def tasks(tier):
     q = tier == 'quick'
     n = len(supported())
-    tl = []
+    tl = [('overlap_%d' % a, t_overlap, dict(a=a, step=3 if q else 1))
+          for a in range(5)]
     nsh = 12
     for i in range(nsh):
         tl.append(('sweep_%d' % i, t_sweep,
